@@ -50,6 +50,8 @@ ProgRsv2 == (1 :> <<Reserve(3)>>) @@ (2 :> <<Ins(2, 21)>>) @@ (3 :> <<Ins(3, 31)
 ProgRt1 == (1 :> <<Retain("even")>>) @@ (2 :> <<Ins2(1, 21), Rem(3)>>) @@ (3 :> <<Ins(3, 31), Get(1)>>)
 ProgRt2 == (1 :> <<Retain("none")>>) @@ (2 :> <<Ins(2, 21)>>) @@ (3 :> <<Ins2(1, 31)>>)
 ProgRt3 == (1 :> <<RetainF("even")>>) @@ (2 :> <<Ins2(1, 21)>>) @@ (3 :> <<Rem(1), Ins(1, 31)>>)
+\* ---- an overfull list bin in a short table: put calls try_presize(2n) (TT = 2): 2 -> 4 -> 8 bins
+ProgOvf == (1 :> <<Ins(3, 31)>>) @@ (2 :> <<Ins2(2, 22)>>) @@ (3 :> <<Get(1), Get(3)>>)
 Init3 == <<E(1, 10), E(2, 20), E(3, 30)>>
 Init1 == <<E(1, 10)>>
 Init2 == <<E(1, 10), E(2, 20)>>
